@@ -775,6 +775,8 @@ def _passes(ctx):
 
 
 def run(ctx):
+    from . import _large
+    _large.c16(ctx)           # lengths on both sides of 2**8, 2**12, 2**16 (see _large.py)
     for k in FFIKINDS:
         get_ffi(k)          # build both FFI objects before forking the workers
     cov_pass = {}
@@ -852,6 +854,20 @@ def _sig(info):
 
 
 def replay(detail):
+    if detail.get("large"):
+        from . import _large
+
+        class _C(object):
+            n = 0
+
+            def count(self, *a):
+                pass
+
+            def violation(self, sig, d):
+                _C.n += 1
+                print("VIOLATED", sig, d)
+        _large.c16(_C())
+        return 1 if _C.n else 0
     if "history" not in detail or detail.get("cfg") is None:
         print("crash record (no single history to replay):", detail)
         return 1
